@@ -12,8 +12,11 @@
 (***************************************************************************)
 EXTENDS TwigSyntax, Json
 
-CONSTANTS Big       \* TRUE: 1 MiB sources
+CONSTANTS Big,      \* TRUE: 1 MiB sources
+          SweepLens \* source / name lengths of the length sweep (every length-prefix boundary lies in some such range)
 VARIABLE cs
+SweepQuick == (120..135) \cup (248..262) \cup (508..516)
+SweepThorough == (1..700) \cup (65530..65540)
 
 T(s) == Text(s)
 L12 == Lit(VL(<<VI(1), VI(2)>>))
@@ -29,7 +32,10 @@ AstSources ==
     nonutf |-> <<T(<<-255, 0, 233, 8364>>), PrintS(Var("x")), T(<<-128>>)>>,
     relinc |-> <<T(<<60>>), Inc(LS(<<46, 47, 112, 97, 114, 116>>)), T(<<62>>)>>,        \* include './part': resolves against the template's own name
     empty  |-> <<>>,
-    onebyte |-> <<T(<<97>>)>> ]
+    onebyte |-> <<T(<<97>>)>>,
+    \* comments are the only tag syntax in the source
+    cmt    |-> <<T(<<97>>), Comment(<<32, 99, 32>>), T(<<98>>), Comment(<<>>)>>,
+    braces |-> <<T(<<97, 32, 123, 32, 98, 32, 125, 32, 37, 32, 35>>)>> ]
 Helper == <<T(<<60>>), Block("bb", <<T(<<68>>)>>), PrintS(Var("x")), T(<<62>>)>>         \* t2: included / extended
 \* ... and big literal sources (pad tokens expanded by the Go side)
 PadSources == [ p65535 |-> 65535, p65536 |-> 65536, p4097 |-> 4097 ] @@ (IF Big THEN [p1m |-> 1048576] ELSE [pnone |-> 0])
@@ -40,13 +46,20 @@ FileSafe == {"t", "acc", "sp"}
 Stamps == {"zero", "minus1", "big", "now"}
 Ctxs == [c1 |-> ("x" :> VS(<<113>>)), c2 |-> EmptyFn]
 
+\* length sweep: a literal source of exactly k bytes / a name of exactly k bytes
+SweepCases == {[src |-> "sweep", len |-> k, name |-> "t", lm |-> "now", c |-> "c1"] : k \in SweepLens \cap (2..100000)}
+              \cup {[src |-> "plain", nlen |-> k, name |-> "long", lm |-> "now", c |-> "c1"] : k \in SweepLens \cap (1..4000)}
+IsSweep(c) == "len" \in DOMAIN c
+NameOf(c) == IF "nlen" \in DOMAIN c THEN [i \in 1..c.nlen |-> 97 + (i % 26)] ELSE Names[c.name]
 Cases == {[src |-> s, name |-> n, lm |-> lm, c |-> c] : s \in DOMAIN AstSources, n \in DOMAIN Names, lm \in Stamps, c \in DOMAIN Ctxs}
+         \cup SweepCases
          \cup {[src |-> s, name |-> n, lm |-> "now", c |-> "c1"] : s \in (DOMAIN PadSources) \ {"pnone"}, n \in {"t", "nul"}}
-Relevant(c) == (c.name \notin {"t", "home"} => c.src \in {"plain", "child", "nonutf", "empty", "p65535", "p65536", "p4097", "p1m"})
+Relevant(c) == (c.name \notin {"t", "home", "long"} => c.src \in {"plain", "child", "nonutf", "empty", "p65535", "p65536", "p4097", "p1m"})
                /\ (c.name = "home" <=> c.src = "relinc")
                /\ (c.lm # "now" => c.src \in {"plain", "empty"})
 
-IsPadSrc(c) == c.src \in DOMAIN PadSources
+IsPadSrc(c) == c.src \in DOMAIN PadSources \/ IsSweep(c)
+PadLen(c) == IF IsSweep(c) THEN c.len - 2 ELSE PadSources[c.src]
 Body(c) == IF IsPadSrc(c) THEN <<T(<<112, PadBase, 113>>)>> ELSE AstSources[c.src]
 \* the reference semantics of the source, registered under a fixed internal name
 \* (in the reference the relative name denotes the helper: pages/home includes pages/part)
@@ -56,10 +69,11 @@ Ref(c) == Render(MkW(("main" :> RefBody(c)) @@ ("t2" :> Helper), {}, {}, NoFault
 CaseOf(c) ==
     LET ref == Ref(c) IN
     [prop |-> "C16", key |-> ToJson(c),
-     tags |-> {"src:" \o c.src, "name:" \o c.name, "lm:" \o c.lm} \cup (IF c.name \in FileSafe THEN {"file"} ELSE {}),
-     name |-> Names[c.name], source |-> Source(Body(c), LMin), helper |-> Source(Helper, LMin),
+     tags |-> {"src:" \o c.src, "name:" \o c.name, "lm:" \o c.lm} \cup (IF c.name \in FileSafe THEN {"file"} ELSE {})
+              \cup (IF IsSweep(c) \/ "nlen" \in DOMAIN c THEN {"lensweep"} ELSE {}),
+     name |-> NameOf(c), source |-> Source(Body(c), LMin), helper |-> Source(Helper, LMin),
      helpername |-> IF c.src = "relinc" THEN <<112, 97, 103, 101, 115, 47, 112, 97, 114, 116>> ELSE <<116, 50>>,
-     pads |-> IF IsPadSrc(c) THEN <<[len |-> PadSources[c.src], style |-> "p", total |-> 0]>> ELSE <<>>,
+     pads |-> IF IsPadSrc(c) THEN <<[len |-> PadLen(c), style |-> "p", total |-> 0]>> ELSE <<>>,
      lm |-> c.lm, filesafe |-> c.name \in FileSafe, ctx |-> Ctxs[c.c],
      expect |-> [ok |-> ref.ok, out |-> ref.out, err |-> ref.err]]
 
